@@ -218,7 +218,7 @@ impl Property for C14 {
         "C14"
     }
     fn rule(&self) -> &'static str {
-        "Cases are the union of the operation catalogues of C01, C02, C03, C05, C06, C07, C10, C11, C12, C13, C18 and C19 (each routed to its owner's oracle, which decides from the model whether the case is in the documented-failure set - zero divisor, BigUint subtraction below zero, negative shift amount, radix out of range, zero modulus, negative exponent, even root of a negative, zeroth root, empty/inverted range, zero bound - and demands a panic / None there and an exact returned value everywhere else), drawn with their adversarial families (add-back and top-digit-equal divisions, carry chains, all-ones squares, MIN scalars), plus failset: for a big value and a scalar, every documented failure case enumerated form by form (division and remainder by zero for all 12 primitive types in both operand orders and assign forms, T %= zero, every checked_* with a zero divisor = None, checked_* outside the failure set = Some(exact), BigUint minus a larger scalar in every form and type, every text/digit radix API with radix 0,1,37,64,255,256,257,u32::MAX, Integer helpers with zero, zero modulus, negative exponent, zeroth and even roots, negative shift amounts of every signed type incl. MIN). Both the release and the debug-assertion/overflow-check profile run in full, in worker processes; a signal or a confirmed non-termination is a violation. Non-trivial: the case is in a documented-failure class, or it runs under the debug-assertion profile and is non-trivial for its owner."
+        "Cases are the union of the operation catalogues of C01-C13 and C17-C19 (each routed to its owner's oracle, which decides from the model whether the case is in the documented-failure set - zero divisor, BigUint subtraction below zero, negative shift amount, radix out of range, zero modulus, negative exponent, even root of a negative, zeroth root, empty/inverted range, zero bound - and demands a panic / None there and an exact returned value everywhere else), drawn with their adversarial families (add-back and top-digit-equal divisions, carry chains, all-ones squares, MIN scalars), plus failset: for a big value and a scalar, every documented failure case enumerated form by form (division and remainder by zero for all 12 primitive types in both operand orders and assign forms, T %= zero, every checked_* with a zero divisor = None, checked_* outside the failure set = Some(exact), BigUint minus a larger scalar in every form and type, every text/digit radix API with radix 0,1,37,64,255,256,257,u32::MAX, Integer helpers with zero, zero modulus, negative exponent, zeroth and even roots, negative shift amounts of every signed type incl. MIN). Both the release and the debug-assertion/overflow-check profile run in full, in worker processes; a signal or a confirmed non-termination is a violation. Non-trivial: the case is in a documented-failure class, or it runs under the debug-assertion profile and is non-trivial for its owner."
     }
     fn technique(&self) -> &'static str {
         "property-based testing (proptest) over the union of all operation catalogues with model-decided failure-set membership, in release and debug-assertion profiles, with crash/hang attribution per input"
@@ -249,6 +249,11 @@ impl Property for C14 {
             5 => pick("C12"),
             5 => pick("C13"),
             4 => pick("C18"),
+            3 => pick("C04"),
+            4 => pick("C08"),
+            4 => pick("C09"),
+            3 => pick("C17"),
+            3 => pick("C19"),
         ]
         .boxed()
     }
@@ -275,6 +280,11 @@ impl Property for C14 {
             "pow" => "catalogue:pow",
             "gcd" => "catalogue:gcd",
             "bits" | "range" | "chacha" => "catalogue:random",
+            "hist" | "ctor" => "catalogue:in-place histories and constructors",
+            "toprim" | "fromprim" | "tofloat" | "fromf64" | "fromf32" => "catalogue:primitive and float conversions",
+            "export" | "import" | "iter" => "catalogue:bytes, digit vectors, iterators",
+            "ser" | "de" => "catalogue:serde",
+            "value" | "pair" | "abs_sub" | "tables" => "catalogue:sign helpers",
             _ => "catalogue:other",
         });
         if cfg!(debug_assertions) {
